@@ -46,7 +46,7 @@ class C17(Prop):
                                 bm = {"kind": "type", "type": "bool" if ytypes[q] != "bool" else "string", "paths": [q, bad_y[0]], "expect_named": [q, bad_y[0]]}
                     elif f == "badpath":
                         # a path the YAML path parser rejects
-                        bm = {"kind": r.choice(["any", "type"]), "paths": [r.choice(["user.name", "$..[", "$.tags[x]"])], "type": "string"}
+                        bm = {"kind": r.choice(["any", "type"]), "paths": [r.choice(["$..[", "$.tags[x]"])], "type": "string"}   # (not `user.name`: whether a missing `$.` is an error is the path syntax's business)
                     elif f in ("type", "nulltype"):
                         # a value of the wrong type for Type, at a path no other matcher rewrites first
                         used = {m_["paths"][0] for m_ in ms}
@@ -103,7 +103,8 @@ class C17(Prop):
                 for m_ in raw_bad[0]["matchers"]:
                     for pth in m_["paths"]:
                         must = (pth in known_bad and m_.get("errOnMissing", True) is not False and not (pth == "user.name" and case["meta"].get("api") != "yaml")) or m_.get("err") or pth in m_.get("expect_named", [])
-                        if must and pth.encode() not in text:
+                        # (named literally or in Go string syntax)
+                        if must and pth.encode() not in text and pth.replace("\\", "\\\\").replace('"', '\\"').encode() not in text:
                             fails.append({"msg": "obs %d: the failure does not name the failing path %s" % (bad[2], pth)})
         if bad[1]["pre"] in ("matcherr", "invalid"):
             o = bad[3]
